@@ -66,10 +66,14 @@ type Machine struct {
 	ivs          map[string]*interval
 	derived      map[string]*Atom
 	usedExt      map[string]bool
+	atoms        map[int]*Atom
+	eqParent     map[int]int
+	eqNeq        map[[2]int]bool
 	mergoNoDeref bool
 	Events       []Event
 	// FactDefault lets a configuration pre-decide named facts (e.g. "streq:..."), bypassing forks.
-	Facts map[string]int
+	Scratch map[string]any
+	Facts   map[string]int
 	// FactPrefixDefault pre-decides string-equality facts by suffix (e.g. "==Plain").
 	FactPrefixDefault map[string]int
 	// ForkStringEquality: explore both outcomes of undecided string equalities instead of assuming "different".
@@ -96,7 +100,41 @@ func NewMachine(p *core.Program) *Machine {
 
 func (m *Machine) NewAtom(kind, name string) *Atom {
 	m.nextAtom++
-	return &Atom{ID: m.nextAtom, Kind: kind, Name: name, Facts: map[string]string{}}
+	a := &Atom{ID: m.nextAtom, Kind: kind, Name: name, Facts: map[string]string{}}
+	if m.atoms == nil {
+		m.atoms = map[int]*Atom{}
+	}
+	m.atoms[a.ID] = a
+	return a
+}
+
+// identPair parses a string-equality fact between two whole, untransformed identifier atoms.
+func (m *Machine) identPair(key string) (int, int, bool) {
+	var a, b int
+	if n, _ := fmt.Sscanf(key, "streq:\x00%d|\x00==\x00%d|\x00", &a, &b); n != 2 {
+		return 0, 0, false
+	}
+	if key != fmt.Sprintf("streq:\x00%d|\x00==\x00%d|\x00", a, b) {
+		return 0, 0, false
+	}
+	x, y := m.atoms[a], m.atoms[b]
+	if x == nil || y == nil || x.Kind != "Ident" || y.Kind != "Ident" {
+		return 0, 0, false
+	}
+	return a, b, true
+}
+
+func (m *Machine) eqFind(x int) int {
+	if m.eqParent == nil {
+		m.eqParent = map[int]int{}
+	}
+	for {
+		p, ok := m.eqParent[x]
+		if !ok || p == x {
+			return x
+		}
+		x = p
+	}
 }
 
 func (m *Machine) Assume(s string) { m.assumed[s] = true }
@@ -157,6 +195,47 @@ func (m *Machine) Decide(key string, n int, note string) int {
 			m.Assume("distinct symbolic names denote distinct strings, different from the concrete names of the run (coincidences are explored by dedicated collision families)")
 			return 0
 		}
+		// collision exploration: only coincidences between two synthesised identifiers (whole, untransformed)
+		// are worlds of their own, and the decisions are kept transitively consistent
+		x, y, ok := m.identPair(key)
+		if !ok {
+			return 0
+		}
+		rx, ry := m.eqFind(x), m.eqFind(y)
+		if rx == ry {
+			return 1
+		}
+		if m.eqNeq[[2]int{rx, ry}] || m.eqNeq[[2]int{ry, rx}] {
+			return 0
+		}
+		// fall through to a real decision; record its consequence below
+		choice := 0
+		i := len(m.made)
+		if i < len(m.script) {
+			choice = m.script[i]
+		}
+		m.made = append(m.made, choice)
+		m.arity = append(m.arity, 2)
+		m.decided[key] = choice
+		m.Forks = append(m.Forks, ForkSite{Key: key, N: 2, Note: note, Pos: m.curPos()})
+		if choice == 1 {
+			m.eqParent[ry] = rx
+			// merge disequalities
+			for k := range m.eqNeq {
+				if k[0] == ry {
+					m.eqNeq[[2]int{rx, k[1]}] = true
+				}
+				if k[1] == ry {
+					m.eqNeq[[2]int{k[0], rx}] = true
+				}
+			}
+		} else {
+			if m.eqNeq == nil {
+				m.eqNeq = map[[2]int]bool{}
+			}
+			m.eqNeq[[2]int{rx, ry}] = true
+		}
+		return choice
 	}
 	if v, ok := m.decided[key]; ok {
 		return v
